@@ -181,6 +181,11 @@ def pool_monoidal(rng, name):
                  (x @ x.r).l, x.r.l.l @ x.l, mod.Ty(mod.Ob(x[0].name, 0)),
                  (x.l @ x).r, (x @ x.r)[1:]]
         pool += [x[0], x.r[0], x.l.r[0], mod.Ob(x[0].name, z=1), mod.Ob(x[0].name)]
+        # the same simple type reached from plain objects / plain types
+        from discopy import cat as _cat, monoidal as _monoidal
+        plain = _monoidal.Ty(x[0].name)
+        pool += [mod.Ty(_cat.Ob(x[0].name)), mod.Ty(*plain), mod.Ty.upgrade(plain),
+                 mod.Ty(_cat.Ob(x[0].name)) @ x.r]
     # -- diagrams ---------------------------------------------------------------
     d = kit.rand_diagram(rng, rng.randint(1, 4), width=rng.randint(0, 3), raw=False)
     e = kit.rand_diagram(rng, rng.randint(0, 2), dom=d.cod, raw=False)
